@@ -241,7 +241,7 @@ type ccResult struct {
 }
 
 var errLine = regexp.MustCompile(`(?m)^[^\n]*\berror:[^\n]*`)
-var numRe = regexp.MustCompile(`[0-9]+`)
+var numRe = regexp.MustCompile(`\b[0-9]+\b`)
 
 func run(dir string, timeout time.Duration, name string, args ...string) (string, error) {
 	ctx, cancel := context.WithTimeout(context.Background(), timeout)
@@ -923,7 +923,7 @@ func main() {
 	// ---- compare
 	stat := map[string]int{}
 	refusedClasses := map[string]int{}
-	oracleDisagree := 0
+	oracleDisagree, skipped := 0, 0
 	sigSeen := map[string]bool{}
 	for i, u := range units {
 		if skip(u) {
@@ -995,6 +995,10 @@ func main() {
 					continue
 				}
 				co := &cr.Out[ci]
+				if strings.HasPrefix(co.K, "skipped:") {
+					skipped++ // the instance hung earlier in this group: its state is no longer reproducible
+					continue
+				}
 				if strings.HasPrefix(co.K, "sig:") {
 					sigSeen[co.K] = true
 				}
@@ -1122,6 +1126,7 @@ func main() {
 	r.Extra("unit_status", stat)
 	r.Extra("refused_as_frozen", refusedClasses)
 	r.Extra("oracle_disagreements_skipped", oracleDisagree)
+	r.Extra("calls_skipped_after_a_hang", skipped)
 	var sl []string
 	for s := range sigSeen {
 		sl = append(sl, s)
